@@ -289,6 +289,14 @@ func main() {
 				r.pending = nil
 				r.mu.Unlock()
 				send(&signaling.SessionResponse{Body: &signaling.SessionResponse_Closed{Closed: true}})
+			case "closeopen":
+				r.mu.Lock()
+				r.epoch++
+				r.pending = nil
+				e := r.epoch
+				r.mu.Unlock()
+				send(&signaling.SessionResponse{Body: &signaling.SessionResponse_Closed{Closed: true}})
+				send(&signaling.SessionResponse{Body: &signaling.SessionResponse_Opened{Opened: e}})
 			case "ack":
 				doAck()
 			case "ackwrong":
